@@ -51,7 +51,7 @@ func sweep(t *testing.T, prop string) {
 			"evaluations": evals, "nontrivial_cases": evals, "nontrivial_fingerprints": hs,
 			"classes": map[string]int{"offset_width_pairs": len(hs)},
 			"samples": []any{map[string]any{"offset": 61, "width": 3}, map[string]any{"offset": 47, "width": 10}},
-			"rule": "hook sweep: for each generated 8-byte digest every (offset 0..63, width 1..10); reader-side Next, builder-side Slice and a 64-bit shift reference must agree; non-trivial = extraction crosses a byte boundary; distinct by (offset,width)",
+			"rule":    "hook sweep: for each generated 8-byte digest every (offset 0..63, width 1..10); reader-side Next, builder-side Slice and a 64-bit shift reference must agree; non-trivial = extraction crosses a byte boundary; distinct by (offset,width)",
 		})
 		_ = os.WriteFile(filepath.Join(dir, t.Name()+".0.json"), b, 0o644)
 	}
